@@ -12,7 +12,7 @@ _is_action_value_list: a list-valued option is one with nargs '*', '+' or a non-
 """
 import z3
 
-from pyvc.engine import ClassRef, ExcVal, PyRaise, Rec
+from pyvc.engine import ClassRef, ExcVal, PyRaise, Rec, is_z3
 from pyvc.units import Setup, Unit
 
 VAL_KINDS = ["spec", "spec-with-init_args", "spec-with-init_args-that-is-no-mapping", "spec-refused", "list", "dict", "scalar", "none"]
@@ -623,14 +623,22 @@ def ath_setup(ctx):
                          "supports_append": lambda c, s_, a, k: ("supports-append", a[0]), "normalize_default": lambda c, s_, a, k: ("normalised", a[0])})
     kw = {"logger": Rec("logger", methods={"debug": lambda c, s_, a, k: None})}
     copied = Rec("hint copied", attrs={"ok": True})
+    dest = z3.String("dest")  # any dest: it is rewritten (prefixed) when the parser that declares the option is attached under a key (ActionParser._move_parser_actions)
     if mode.startswith("copy"):
-        kw.update({"_typehint": copied, "_enable_path": Rec("copied enable_path"), "dest": "x"})
+        kw.update({"_typehint": copied, "_enable_path": Rec("copied enable_path"), "dest": dest, "option_strings": [z3.Concat(z3.StringVal("--"), dest)]})
+
+    def action_init(c2, s2, a2, k2):
+        c2.event("Action.__init__", dict(k2))
+        for name in ("dest", "option_strings"):  # argparse.Action.__init__ stores its keywords as attributes of the same name
+            if name in k2:
+                self.attrs[name] = k2[name]
+
     calls = {"get_typehint_origin": lambda c, a, k: a[0].attrs.get("origin"), "is_pathlike": lambda c, a, k: bool(a[0].attrs.get("pathlike")),
-             "typehint_metavar": lambda c, a, k: ("metavar-of", a[0]), "super": lambda c, a, k: Rec("super()", methods={"__init__": lambda c2, s2, a2, k2: c2.event("Action.__init__", dict(k2))})}
+             "typehint_metavar": lambda c, a, k: ("metavar-of", a[0]), "super": lambda c, a, k: Rec("super()", methods={"__init__": action_init})}
     consts = {"Union": Rec("Union", methods={"__getitem__": lambda c, s_, a, k: (rebuilt.append(a[0]), Rec("hint Union(rebuilt)", attrs={"ok": True, "origin": "Union", "__args__": a[0]}))[1], "__eq__": lambda c, s_, a, k: a[0] == "Union"}),
               "NoneType": NONE}
     return Setup(env={"self": self, "typehint": hint, "enable_path": enable_path, "kwargs": kw}, calls=calls, consts=consts,
-                 data=dict(mode=mode, hk=hk, enable_path=enable_path, hint=hint, good=good, bad=bad, NONE=NONE, self_=self, copied=copied, kw=kw, rebuilt=rebuilt))
+                 data=dict(mode=mode, hk=hk, enable_path=enable_path, hint=hint, good=good, bad=bad, NONE=NONE, self_=self, copied=copied, kw=kw, rebuilt=rebuilt, dest=dest))
 
 
 def ath_post(ctx, st, result):
@@ -650,9 +658,24 @@ def ath_post(ctx, st, result):
         ctx.oblige("post", "accepted=>the-copy-carries-_typehint" + tag, d["mode"].startswith("copy"))
         ev = [e for e in ctx.events if e[0] == "Action.__init__"]
         ok = a.get("_typehint") is d["copied"] and a.get("_enable_path") is not None and a["_enable_path"].cls == "copied enable_path" and a.get("sub_add_kwargs") == {} and len(ev) == 1 \
-            and "_typehint" not in ev[0][1] and "_enable_path" not in ev[0][1] and ev[0][1].get("metavar") == ("metavar-of", d["copied"]) and ev[0][1].get("dest") == "x"
+            and "_typehint" not in ev[0][1] and "_enable_path" not in ev[0][1] and ev[0][1].get("metavar") == ("metavar-of", d["copied"]) and ev[0][1].get("dest") is d["dest"]
         ctx.oblige("post", "the-action-proper-is-built-from-the-prototype's-hint-and-path-setting(not handed to argparse),with-own-empty-sub_add_kwargs-and-a-metavar-for-the-hint" + tag, ok)
         ctx.oblige("post", "the-declared-default-is-stored-in-its-normal-form;appendability-is-that-of-the-hint" + tag, a.get("default") == ("normalised", a.get("default")[1] if isinstance(a.get("default"), tuple) else None) and a.get("_supports_append") == ("supports-append", d["copied"]))
+
+
+        # dest and the option strings are rewritten when the declaring parser is attached under a key; anything computed from them at construction time would go stale
+        derived = [n for n, v in a.items() if n not in ("dest", "option_strings") and _mentions(v, d["dest"])]
+        ctx.oblige("frame", "nothing-computed-from-dest-or-the-option-strings-is-stored-under-another-name(they change when the parser is attached under a key)" + tag, not derived, note=f"derived attributes: {derived}")
+
+
+def _mentions(v, sym):
+    if is_z3(v):
+        return any(x.eq(sym) for x in z3.z3util.get_vars(v))
+    if isinstance(v, (list, tuple)):
+        return any(_mentions(x, sym) for x in v)
+    if isinstance(v, dict):
+        return any(_mentions(x, sym) for x in v.values())
+    return False
 
 
 def ath_raises(ctx, st, exc):
